@@ -260,6 +260,8 @@ type lifeNode struct {
 	phase uint64 // 0 ready, 1 started, 2 stopped, 3 start failed
 	yaml  string
 	tun   *overlay.VerifLifeTun
+	// the ledger: every udp listener Main opened for the node, kept here so that nothing the node forgets escapes
+	ledger []udp.Conn
 }
 
 func lifeSSHKey() string {
@@ -328,7 +330,8 @@ func lifeNewNode(ca *lifeCA, name string, vpn netip.Addr, cfg lifeCfg, lhVpn net
 	if err != nil {
 		panic(fmt.Sprintf("Main(%s): %v\n%s", name, err, sb.String()))
 	}
-	return &lifeNode{name: name, ctl: ctl, conf: c, vpn: vpn, udp: udpAddr, cfg: cfg, yaml: sb.String(), tun: ctl.Device().(*overlay.VerifLifeTun)}
+	return &lifeNode{name: name, ctl: ctl, conf: c, vpn: vpn, udp: udpAddr, cfg: cfg, yaml: sb.String(), tun: ctl.Device().(*overlay.VerifLifeTun),
+		ledger: nebula.VerifLifeLedger(ctl)}
 }
 
 // ---- a minimal router between the in-memory sockets --------------------------------------------------------------
@@ -497,12 +500,27 @@ func (sc *lifeScenario) start(n *lifeNode) error {
 	return err
 }
 
-func lifeModelCfg(n *lifeNode) string {
-	routines := 1
-	if n.phase == 1 {
-		routines = nebula.VerifLifeRoutines(n.ctl)
+// configured routines = udp listeners Main opens; the e2e device opens one queue and the e2e socket cannot be read by
+// several goroutines, so one reader pair runs whatever is configured
+func lifeConfigured(n *lifeNode) int {
+	if n.cfg.routines > 1 {
+		return n.cfg.routines
 	}
-	return lifeCfgLit(routines, !n.cfg.amLH, !n.cfg.amLH, n.cfg.ctCache || n.cfg.routines > 1, n.cfg.amLH && n.cfg.dns, n.cfg.sshd)
+	return 1
+}
+
+func (n *lifeNode) udpLeftOpen() int {
+	k := 0
+	for _, c := range n.ledger {
+		if !udp.VerifLifeClosed(c) {
+			k++
+		}
+	}
+	return k
+}
+
+func lifeModelCfg(n *lifeNode) string {
+	return lifeCfgLit(lifeConfigured(n), 1, false, !n.cfg.amLH, !n.cfg.amLH, n.cfg.ctCache || n.cfg.routines > 1, n.cfg.amLH && n.cfg.dns, n.cfg.sshd)
 }
 
 // emitCensus: what is running in the whole process, by creation site, against what the model expects for the nodes.
@@ -576,10 +594,11 @@ func (sc *lifeScenario) stop(n *lifeNode, tag string) {
 	}
 	sc.tr.cur = -1
 	st := int(n.ctl.State())
-	ctx, udpC, tunC := nebula.VerifLifeCtxDone(n.ctl), nebula.VerifLifeUDPClosed(n.ctl), nebula.VerifLifeTunClosed(n.ctl)
+	ctx, udpC, tunC := nebula.VerifLifeCtxDone(n.ctl), nebula.VerifLifeUDPClosed(n.ctl) && n.udpLeftOpen() == 0, nebula.VerifLifeTunClosed(n.ctl)
+	udpLeft := n.udpLeftOpen()
 	// a second Stop must be a no-op
 	n.ctl.Stop()
-	second := int(n.ctl.State()) == st && nebula.VerifLifeCtxDone(n.ctl) == ctx && nebula.VerifLifeUDPClosed(n.ctl) == udpC && nebula.VerifLifeTunClosed(n.ctl) == tunC
+	second := int(n.ctl.State()) == st && nebula.VerifLifeCtxDone(n.ctl) == ctx && (nebula.VerifLifeUDPClosed(n.ctl) && n.udpLeftOpen() == 0) == udpC && nebula.VerifLifeTunClosed(n.ctl) == tunC
 	if err := n.ctl.Start(); err == nil {
 		second = false // a stopped node must not start again
 	}
@@ -592,15 +611,15 @@ func (sc *lifeScenario) stop(n *lifeNode, tag string) {
 		}
 	}
 	sc.cw.Add(hx.App("Lifecycle_corr.CStop", lifeModelCfgAt(n, before), hx.N(before), hx.N(uint64(st)), hx.Bool(ctx), hx.Bool(udpC), hx.Bool(tunC),
-		hx.N(uint64(leftover)), hx.N(uint64(unknown)), hx.N(stopMs), hx.N(waitMs), hx.N(lifeBoundMs), hx.Bool(second)),
+		hx.N(uint64(leftover)), hx.N(uint64(unknown)), hx.N(stopMs), hx.N(waitMs), hx.N(lifeBoundMs), hx.Bool(second), hx.N(uint64(len(n.ledger))), hx.N(uint64(udpLeft))),
 		"stop-"+sc.name, true,
 		map[string]any{"scenario": sc.name, "at": tag, "node": n.name, "phase_before": before, "state": st, "ctx_cancelled": ctx, "udp_closed": udpC,
-			"tun_closed": tunC, "leftover_goroutines": leftover, "leftover_sites": leftSites, "stop_ms": stopMs, "wait_ms": waitMs, "second_stop_noop": second})
+			"tun_closed": tunC, "leftover_goroutines": leftover, "leftover_sites": leftSites, "stop_ms": stopMs, "wait_ms": waitMs, "second_stop_noop": second,
+			"udp_listeners_opened": len(n.ledger), "udp_listeners_left_open": udpLeft})
 }
 
 func lifeModelCfgAt(n *lifeNode, phase uint64) string {
-	routines := 1
-	return lifeCfgLit(routines, !n.cfg.amLH, !n.cfg.amLH, n.cfg.ctCache || n.cfg.routines > 1, n.cfg.amLH && n.cfg.dns, n.cfg.sshd)
+	return lifeCfgLit(lifeConfigured(n), 1, false, !n.cfg.amLH, !n.cfg.amLH, n.cfg.ctCache || n.cfg.routines > 1, n.cfg.amLH && n.cfg.dns, n.cfg.sshd)
 }
 
 func (sc *lifeScenario) finish() {
@@ -804,7 +823,30 @@ func runLifecycleNet(c *hx.Ctx) {
 		lifeRebindIdle(newSc("rebind-idle-stop-control-traffic"), ca, 1, 2, true, true, false)
 		lifeRebindIdle(newSc("rebind-idle-stop-control-lighthouse"), ca, 1, 2, true, false, true)
 
-		// 10. random configurations
+		// 10. configured routines 1..4 (one udp listener each; one reader pair under e2e): stopped before Start, right
+		//     after Start, and with a tunnel - every listener Main opened must be closed afterwards
+		for r := 1; r <= 4; r++ {
+			sc = newSc(fmt.Sprintf("routines-%d", r))
+			n0 := sc.add(ca, "n0", "10.128.0.20", lifeCfg{routines: r}, nil)
+			sc.stop(n0, "before start")
+			n1 := sc.add(ca, "n1", "10.128.0.21", lifeCfg{routines: r}, nil)
+			sc.start(n1)
+			sc.emitCensus("after Start")
+			sc.stop(n1, "right after start")
+			n2 := sc.add(ca, "n2", "10.128.0.22", lifeCfg{routines: r}, nil)
+			pe := sc.add(ca, "pe", "10.128.0.23", lifeCfg{routines: 5 - r}, nil)
+			n2.ctl.InjectLightHouseAddr(pe.vpn, pe.udp)
+			pe.ctl.InjectLightHouseAddr(n2.vpn, n2.udp)
+			sc.r = lifeNewRouter(n2, pe)
+			sc.start(n2)
+			sc.start(pe)
+			up := lifeWaitTunnel(n2, pe, 5*time.Second)
+			sc.stop(n2, fmt.Sprintf("with a tunnel (up=%v)", up))
+			sc.stop(pe, "peer of a stopped node")
+			sc.finish()
+		}
+
+		// 11. random configurations
 		extra := 1
 		if c.Tier == "thorough" {
 			extra = 6
